@@ -1070,4 +1070,83 @@ theorem C07_quiet_analysis (env : Env) (input : Str) (s : Col α) (hd : s.define
 example : ({} : Col Rat).defineMode ≠ .steps ∧ ({} : Col Rat).duplicateMode = .new := ⟨by decide, rfl⟩
 example : Modifiers.empty.contains Modifiers.NEW = false ∧ Modifiers.empty.contains Modifiers.REF = false := by decide
 
+/-! ### Soundness on whole recipes
+
+  The C01 round-trip theorems already compute the full result of the analysis / of `parse` for a class
+  of well-formed recipes, and that result has an EMPTY diagnostics array.  Stated here as what C07
+  asks: no error, no warning, the result is valid. -/
+
+/-- **A well-formed simple recipe is quiet (analysis pass).**  For the event list of a `SimpleRecipe`
+    (steps of text, ingredient, cookware and timer events; every component a plain definition: no
+    `&`, no `+`, no intermediate reference, `=` only on a numeric ingredient amount; no step empty),
+    with ADVANCED_UNITS and INLINE_QUANTITIES off and every other extension arbitrary,
+    `parse_events` reports NO diagnostic (no error, no warning — not even the `>>` deprecation
+    notice, there is no `>>` line), has output, is valid, and no panic site is reached. -/
+theorem C07_sound_simple_events (env : Env) (input : Str)
+    (hadv : env.ext.has Gen.EXT_ADVANCED_UNITS = false) (hinl : env.ext.has Gen.EXT_INLINE_QUANTITIES = false)
+    (r : SimpleRecipe α) (hs : ∀ st ∈ r.steps, ∀ it ∈ st, it.Simple) (hne : ∀ st ∈ r.steps, st ≠ []) :
+    (parseEvents env input r.events).diags = #[] ∧ (parseEvents env input r.events).isValid = true ∧
+    (parseEvents env input r.events).panic = none := by
+  rw [rta_parseEvents_simple env input hadv hinl r hs hne]
+  exact ⟨rfl, rfl, rfl⟩
+
+/-- **A well-formed recipe made of steps is quiet, from the characters on.**  For every document of
+    steps accepted by `C01_recipe_steps` (text runs over several lines, ingredients and cookware in
+    brace or single-word form with modifiers `@ - ?`, aliases, notes, quantities with units, timers;
+    every component a plain definition; the syntactic side conditions of the printer), with
+    ADVANCED_UNITS and INLINE_QUANTITIES off, `CooklangParser::parse` on the printed text reports NO
+    diagnostic, has output, is valid, and reaches no panic site. -/
+theorem C07_sound_recipe_steps (env : Env) (pre : List Tok) (doc : List (List SegX × List Tok))
+    (hadv : env.ext.has Gen.EXT_ADVANCED_UNITS = false) (hinl : env.ext.has Gen.EXT_INLINE_QUANTITIES = false)
+    (hpre : blankLinesOK pre = true) (hok : ∀ d ∈ doc, (DocItem.step d.1).ok env.cs env.ext = true)
+    (hsimple : ∀ d ∈ doc, d.1.all SegX.simple = true) (hseps : sepsOK (doc.map (·.2)) = true)
+    (hw : WellSpelled env.cs (pre ++ docSpec (stepsDoc doc)))
+    (hfm : parseFrontmatter env.cs (render (pre ++ docSpec (stepsDoc doc))) = none) :
+    (parseRecipe (α := α) env (render (pre ++ docSpec (stepsDoc doc)))).diags = #[] ∧
+    (parseRecipe (α := α) env (render (pre ++ docSpec (stepsDoc doc)))).isValid = true ∧
+    (parseRecipe (α := α) env (render (pre ++ docSpec (stepsDoc doc)))).panic = none := by
+  obtain ⟨r, h1, -⟩ := rtr_parseRecipe_steps (α := α) env pre doc hadv hinl hpre hok hsimple hseps hw hfm
+  rw [h1]
+  exact ⟨rfl, rfl, rfl⟩
+
+/-- **… under EVERY extension set**, for core-syntax recipes (partial: the composition with C02 is a
+    hypothesis).  If the result of `parse` on the printed text does not depend on the extension set —
+    `hirr`, which is exactly the conclusion of `C02_parse_ext_irrelevant` (Props/C02.lean) for inputs
+    all of whose blocks satisfy `UsesNone` and whose events satisfy `evConvCore` — then under ALL
+    raw extension patterns `e`, ADVANCED_UNITS and INLINE_QUANTITIES included, `parse` reports no
+    diagnostic, is valid and does not panic.  (`env` is the environment the document was checked
+    against, with the two flags off.)
+    Missing: discharging `hirr` here; Props/C02's lemma files (Lemmas/ExtLaws) and this file's
+    (Lemmas/RoundtripComp) cannot be imported together because both declare `withRecover_run`. -/
+theorem C07_sound_recipe_steps_all_extensions_partial (env : Env)
+    (pre : List Tok) (doc : List (List SegX × List Tok))
+    (hadv : env.ext.has Gen.EXT_ADVANCED_UNITS = false) (hinl : env.ext.has Gen.EXT_INLINE_QUANTITIES = false)
+    (hpre : blankLinesOK pre = true) (hok : ∀ d ∈ doc, (DocItem.step d.1).ok env.cs env.ext = true)
+    (hsimple : ∀ d ∈ doc, d.1.all SegX.simple = true) (hseps : sepsOK (doc.map (·.2)) = true)
+    (hw : WellSpelled env.cs (pre ++ docSpec (stepsDoc doc)))
+    (hfm : parseFrontmatter env.cs (render (pre ++ docSpec (stepsDoc doc))) = none)
+    (hirr : ∀ e : Ext, parseRecipe (α := α) { env with ext := e } (render (pre ++ docSpec (stepsDoc doc))) =
+      parseRecipe env (render (pre ++ docSpec (stepsDoc doc)))) (e : Ext) :
+    (parseRecipe (α := α) { env with ext := e } (render (pre ++ docSpec (stepsDoc doc)))).diags = #[] ∧
+    (parseRecipe (α := α) { env with ext := e } (render (pre ++ docSpec (stepsDoc doc)))).isValid = true ∧
+    (parseRecipe (α := α) { env with ext := e } (render (pre ++ docSpec (stepsDoc doc)))).panic = none := by
+  rw [hirr e]
+  exact C07_sound_recipe_steps env pre doc hadv hinl hpre hok hsimple hseps hw hfm
+
+/-! non-vacuity: the example recipe of C01 (`Add @salt{=1%tsp} to the #pot{}` / `~{10%min} wait`) and the
+    example document of `C01_recipe_steps` satisfy the hypotheses (shown in Props/C01.lean); the
+    validity of the result -/
+example : (parseEvents C01_toyEnv [] C01_exSimple.events).isValid = true := by
+  refine (C07_sound_simple_events C01_toyEnv [] (by decide) (by decide) C01_exSimple ?_ ?_).2.1
+  · have h1 : IngrSimple C01_exSalt1 := ⟨rfl, by decide, by intro q hq; cases hq; intro _; exact ⟨rfl, rfl⟩⟩
+    have h2 : CwSimple C01_exPot1 := ⟨by decide, by intro q hq; cases hq⟩
+    have h3 : TimerSimple C01_exTimer1 := ⟨by intro q hq; cases hq; intro h; cases h⟩
+    intro st hst it hit
+    simp only [C01_exSimple, List.mem_cons, List.not_mem_nil, or_false] at hst
+    rcases hst with rfl | rfl <;> simp only [List.mem_cons, List.not_mem_nil, or_false] at hit <;>
+      rcases hit with rfl | rfl | rfl | rfl <;> first | trivial | exact h1 | exact h2 | exact h3
+  · intro st hst
+    simp only [C01_exSimple, List.mem_cons, List.not_mem_nil, or_false] at hst
+    rcases hst with rfl | rfl <;> simp
+
 end Cook
